@@ -128,6 +128,14 @@ def regen(log):
         res['ok'] = False
         res['error'] = 'translator failed:\n' + r.stdout[-4000:]
         return res
+    # which declarations of the library differ from the pinned tree (fingerprints of the printed AST, comments excluded)
+    res['changed_decls'] = []
+    try:
+        cur = json.load(open(os.path.join(B, 'funchashes.json')))
+        pin = json.load(open(os.path.join(V, 'checks', 'pinned_decls.json')))
+        res['changed_decls'] = sorted(k for k in set(cur) | set(pin) if cur.get(k) != pin.get(k))
+    except (OSError, ValueError):
+        pass
     write_sjis_ref(os.path.join(tmp, 'SjisRef.lean'))
     os.makedirs(GEN, exist_ok=True)
     new = sorted(os.listdir(tmp))
@@ -142,7 +150,7 @@ def regen(log):
             os.replace(src, dst)
             res['changed'].append(f)
     shutil.rmtree(tmp, ignore_errors=True)
-    log('regen: changed=%s mismatches=%d' % (res['changed'], len(res['mismatches'])))
+    log('regen: changed=%s mismatches=%d%s' % (res['changed'], len(res['mismatches']), (' declarations differing from the pinned tree: %s' % res['changed_decls'][:8]) if res['changed_decls'] else ''))
     return res
 
 
